@@ -91,6 +91,8 @@ type FuncContract struct {
 	NoPanicOK bool // function has a recover handler; panics become edges
 	Lemmas    []Clause
 	Updates   []UpdateClause // exact memory effect: X[i] := v (evaluated in the pre-state)
+	AsmLabels map[string]*LoopContract // assembly: invariants by label
+	IsAsm     bool
 	AllocBound *Clause
 }
 
@@ -546,10 +548,20 @@ func loadContractFile(file string, out map[string]*FuncContract) error {
 			kw, rest = l[:i], strings.TrimSpace(l[i+1:])
 		}
 		fail := func(e error) error { return fmt.Errorf("%s: %q: %v", file, l, e) }
-		if kw != "func" && kw != "package" && cur == nil {
+		if kw != "func" && kw != "asm" && kw != "package" && cur == nil {
 			return fail(fmt.Errorf("clause outside func"))
 		}
 		switch kw {
+		case "asm":
+			cur = &FuncContract{Name: "asm." + rest, Pkg: pkg, Theory: "bv", Loops: map[int]*LoopContract{}, AsmLabels: map[string]*LoopContract{}, File: file, IsAsm: true, Trusted: true}
+			curLoop = nil
+			out[pkg+".asm."+rest] = cur
+		case "label":
+			if cur == nil || !cur.IsAsm {
+				return fail(fmt.Errorf("label outside asm contract"))
+			}
+			curLoop = &LoopContract{}
+			cur.AsmLabels[strings.TrimSuffix(rest, ":")] = curLoop
 		case "func":
 			name := strings.NewReplacer("(", "", ")", "", "*", "").Replace(rest)
 			cur = &FuncContract{Name: name, Pkg: pkg, Theory: "int", Loops: map[int]*LoopContract{}, File: file}
